@@ -105,6 +105,21 @@ def model_value(m, v):
     raise ValueError("no numeric value for %s: %s" % (v, x))
 
 
+def checked(s, timeout):
+    """solver.check() with a hard watchdog: z3's own timeout is not honoured inside some nonlinear procedures"""
+    import threading
+
+    timer = threading.Timer(timeout + 3, s.ctx.interrupt)
+    timer.daemon = True
+    timer.start()
+    try:
+        return s.check()
+    except z3.Z3Exception:
+        return z3.unknown
+    finally:
+        timer.cancel()
+
+
 class Job:
     """one unit of work of a property check; runs in a worker process and returns a plain dict"""
 
@@ -198,7 +213,7 @@ class Job:
         trivial = z3.is_false(z3.simplify(goal))
         s = self._solver(conds + [goal], timeout)
         t0 = time.time()
-        r = s.check()
+        r = checked(s, timeout)
         dt = time.time() - t0
         self.solver_time += dt
         res = {"id": oid, "time": round(dt, 4), "nontrivial": not trivial, "job": self.name}
